@@ -1,5 +1,6 @@
 import SqlgrepModel.Lemmas.ExtractRow
 import SqlgrepModel.Lemmas.ParseLit
+import SqlgrepModel.Lemmas.ParseLitMore
 import SqlgrepModel.Lemmas.Timestamp
 /-
 C01 — regex/split extraction yields exactly the captured, typed column values.
@@ -84,6 +85,38 @@ theorem parseI64_render (n : Int) (h : -2 ^ 63 ≤ n ∧ n < 2 ^ 63) : parseI64 
 /-- positional value of a digit string (what "denotes" means in `IsIntLiteral`) -/
 theorem digits_positional (ds : List Nat) (b : Nat) : digitsVal (ds ++ [b]) = digitsVal ds * 10 + (b - 48) :=
   Lit.digitsVal_append_singleton ds b
+
+/-! ### the other literal forms ("NULL when the text is not a literal of that type")
+
+`parseI64_exact` says what an INT literal is; these say it for BOOLEAN texts (CONVERT / JSON strings), INTERVAL and the
+month names a TIMESTAMP column accepts for its second part. (REAL literals are `f64::from_str`, a fact shipped with each
+case; TIMESTAMP literals: `timestamp_exists_iff` above for the parts, `Lemmas/Timestamp.lean` for the text form.) -/
+
+/-- a BOOLEAN literal is exactly `true` or `false` (lower case, nothing around it) -/
+theorem parseBool_exact (s : Text) (b : Bool) :
+    parseBool s = some b ↔ (b = true ∧ s = [116, 114, 117, 101]) ∨ (b = false ∧ s = [102, 97, 108, 115, 101]) :=
+  Lit.parseBool_iff s b
+
+/-- **INTERVAL literals** are exactly the texts `h:m:s` of three INT literals (`IsIntLiteral`, via `parseI64_exact`)
+separated by two colons, whose parts and partial sums stay inside chrono's range; the value is the exact number of
+nanoseconds `(3600 h + 60 m + s) · 10⁹` — never rounded, wrapped or re-typed -/
+theorem parseInterval_exact (s : Text) (v : Value) :
+    parseInterval s = some v ↔
+      ∃ a b c h m sec, s = a ++ 58 :: (b ++ 58 :: c) ∧ (58 : Nat) ∉ a ∧ (58 : Nat) ∉ b ∧ (58 : Nat) ∉ c ∧
+        parseI64 a = some h ∧ parseI64 b = some m ∧ parseI64 c = some sec ∧
+        deltaOk (h * 3600) = true ∧ deltaOk (m * 60) = true ∧ deltaOk (h * 3600 + m * 60) = true ∧ deltaOk sec = true ∧
+        deltaOk (h * 3600 + m * 60 + sec) = true ∧
+        v = .interval ((h * 3600 + m * 60 + sec) * 1000000000) :=
+  Lit.parseInterval_iff s v
+
+/-- a month name is an ASCII text whose lower case is one of the fifteen spellings of `monthTable`, and it denotes a
+month between 1 and 12 -/
+theorem monthOfName_exact (s : Text) (m : Nat) :
+    monthOfName s = some m ↔ isAscii s = true ∧ (asciiLower s, m) ∈ monthTable :=
+  Lit.monthOfName_iff s m
+
+theorem monthOfName_range (s : Text) (m : Nat) (h : monthOfName s = some m) : 1 ≤ m ∧ m ≤ 12 :=
+  Lit.monthTable_range _ ((Lit.monthOfName_iff s m).1 h).2
 
 /-- **timestamp_faithful.** If `create_timestamp` yields a timestamp, its civil fields are exactly the parts put in:
 no part is ever a different number from the captured one. -/
@@ -252,6 +285,9 @@ example : mkTimestamp 2021 2 29 0 0 0 0 = none := by decide
 example : setPart false 1 4294967297 {} = none := by decide
 example : setPart false 6 9999999 {} = none := by decide
 example : monthOfName [83, 69, 80, 84] = some 9 := by decide
+example : parseInterval [45, 49, 58, 48, 50, 58, 43, 51] = some (.interval (-3477000000000)) := by rfl
+example : parseInterval [49, 58, 50] = none ∧ parseInterval [49, 58, 50, 58, 51, 58, 52] = none ∧ parseInterval [49, 58, 58, 51] = none := ⟨rfl, rfl, rfl⟩
+example : parseBool [84, 114, 117, 101] = none := by decide
 example : storeParts false [.num 2020, .num 2, .num 29] 0 {} = some { year := 2020, month := 2, day := 29 } := by decide
 example : (specTsFrom { parsing := .multi [], type := .timestamp } [.num 2020, .num 2, .num 29] 0 {}).isNull = false := by decide
 example : specTsFrom { parsing := .multi [], type := .timestamp } [.num 2020, .absent, .num 29] 0 {} = .null := by rfl
